@@ -573,6 +573,35 @@ func init() {
 		s, ns := args[0].(*smt.Term), args[1].(*smt.Term)
 		return TimeV{sec: b.Add(s, b.Div(ns, ex.k(1000000000))), nsec: b.Mod(ns, ex.k(1000000000)), loc: locLocal}
 	})
+	// LoadLocation: "" and "UTC" are UTC, "Local" is the process zone; a name that cannot be in the time zone database
+	// (shorter than three characters, or with characters no zone name has) is an error; real zone names (DST rules) are
+	// not modelled.
+	reg("time.LoadLocation", func(ex *Exec, fr *frame, pos token.Pos, args []value) value {
+		name := ex.wantConcrete(args[0], "time.LoadLocation")
+		mk := func(l *LocV) value {
+			cell := new(value)
+			*cell = l
+			return tuple{cell, iface{}}
+		}
+		switch name {
+		case "", "UTC":
+			return mk(locUTC)
+		case "Local":
+			return mk(locLocal)
+		}
+		bad := len(name) < 3
+		for i := 0; i < len(name); i++ {
+			ch := name[i]
+			if !(ch >= 'a' && ch <= 'z' || ch >= 'A' && ch <= 'Z' || ch >= '0' && ch <= '9' || ch == '/' || ch == '_' || ch == '-' || ch == '+') {
+				bad = true
+			}
+		}
+		if bad {
+			var nilLoc *value
+			return tuple{nilLoc, ex.newErr("unknown time zone " + name)}
+		}
+		panic(ex.unsupported("time.LoadLocation of a named zone (" + name + ")"))
+	})
 	reg("time.FixedZone", func(ex *Exec, fr *frame, pos token.Pos, args []value) value {
 		cell := new(value)
 		*cell = &LocV{kind: "fixed", off: args[1].(*smt.Term), name: "fixed"}
